@@ -620,6 +620,8 @@ class Exec:
             ch = m.group(1)
             ch = {"\\n": "\n", "\\t": "\t", "\\\\": "\\", "\\'": "'"}.get(ch, ch[-1])
             return BV(z3.BitVecVal(ord(ch), 32))
+        if c == "[]":
+            return Seq([], "array")
         if c == "RangeFull":
             return Adt("RangeFull", None, [])
         if c == "true":
